@@ -678,3 +678,148 @@ def enumerate_histories(alphabet, cfgs, max_len):
         for n in range(1, max_len + 1):
             for seq in itertools.product(alphabet, repeat=n):
                 yield {"cfg": cfg, "cmds": [list(c) if not isinstance(c, list) else c for c in seq]}
+
+
+# =======================================================================================
+# Engine DET: one subscriber racing one emitter (two controlled threads, all schedules with <= K preemptions)
+
+
+def _fresh_thread_state():
+    """Observable.subscribe goes through CurrentThreadScheduler.singleton(), which caches one scheduler per OS
+    thread (class-level WeakKeyDictionary) and one trampoline per OS thread (threading.local).  With pooled worker
+    threads the first run would take the creation path and later runs the cached one (different step numbering for
+    the same schedule); re-creating both containers per run keeps runs comparable.  Same recipe as vlib/conc.py."""
+    import weakref
+
+    from reactivex.scheduler import currentthreadscheduler as cts
+
+    cts.CurrentThreadScheduler._global = weakref.WeakKeyDictionary()
+    cts.CurrentThreadSchedulerSingleton._local = type(cts.CurrentThreadSchedulerSingleton._local)()
+
+
+class RaceRec:
+    def __init__(self):
+        self.received = []
+        self.handle = None
+
+    def _cb(self, n):
+        from . import det
+
+        self.received.append(n)
+        det.yield_point("cb")  # let the other thread run while this callback is in flight
+
+    def on_next(self, v):
+        self._cb(["N", canon(v)])
+
+    def on_error(self, e):
+        self._cb(["E", cn_exc(e)])
+
+    def on_completed(self):
+        self._cb(["C"])
+
+
+def _apply_model(m, c):
+    if c[0] == "next":
+        m.cmd_next(c[1])
+    elif c[0] == "error":
+        m.cmd_terminal(["E", ["exc", c[1]]])
+    elif c[0] == "completed":
+        m.cmd_terminal(["C"])
+    else:
+        raise HarnessError(f"race emit {c}")
+
+
+def race_allowed(kind, cfg, emits, pre):
+    """Linearizability oracle: the racing subscriber must see what the sequential model gives it when its subscribe
+    is placed at SOME position j of the emitter's call sequence (0 = before every call ... n = after all of them);
+    observers subscribed before the race must see exactly the sequential outcome."""
+    allowed, pre_exp = [], None
+    for j in range(len(emits) + 1):
+        m = Model(kind, cfg)
+        m.begin(lambda oid: None)
+        pres = [m.new_top({"k": "plain"}) for _ in range(pre)]
+        for p in pres:
+            m.cmd_sub(p, False)
+        for c in emits[:j]:
+            _apply_model(m, c)
+        o = m.new_top({"k": "plain"})
+        m.cmd_sub(o, False)
+        for c in emits[j:]:
+            _apply_model(m, c)
+        allowed.append(o.received)
+        pre_exp = [p.received for p in pres]
+    return allowed, pre_exp
+
+
+def det_race(case):
+    """case = {"kind", "cfg", "emits": [["next", v] | ["error", tag] | ["completed"], ...], "pre": n, "K": k}.
+    Thread A: subject.subscribe(recorder)  ||  thread B: the emits in order, on a subject created after patching."""
+    from . import det
+
+    kind, cfg, emits, pre, K = case["kind"], case.get("cfg") or {}, case["emits"], case.get("pre", 0), case["K"]
+    if kind == "replay":
+        raise HarnessError("det_race: ReplaySubject not supported (per-subscriber scheduler hops)")
+    allowed, pre_exp = race_allowed(kind, cfg, emits, pre)
+    kw = dict(max_steps=6000, reuse_threads=True, wall_timeout=30.0)
+
+    def factory():
+        _fresh_thread_state()
+        drv = Driver(kind, cfg)  # subject created while patched: its RLock is cooperative
+        subj = drv.subject
+        pres = [RaceRec() for _ in range(pre)]
+        for p in pres:
+            p.handle = subj.subscribe(p)
+        rec = RaceRec()
+
+        def ta():
+            rec.handle = subj.subscribe(rec)
+
+        def tb():
+            for c in emits:
+                if c[0] == "next":
+                    subj.on_next(val(c[1]))
+                elif c[0] == "error":
+                    subj.on_error(make_error(c[1]))
+                else:
+                    subj.on_completed()
+
+        return [ta, tb], {"rec": rec, "pres": pres, "subj": subj}
+
+    def judge(res, ctx):
+        if res.deadlock:
+            return "deadlock", f"{res.deadlock}"
+        if res.exceptions:
+            return "exception", f"{res.exceptions}"
+        got = ctx["rec"].received
+        if got not in allowed:
+            return "subscriber-not-linearizable", f"racing subscriber received {got}; allowed (by subscribe position) {allowed}"
+        for i, p in enumerate(ctx["pres"]):
+            if p.received != pre_exp[i]:
+                return "earlier-subscriber", f"observer subscribed before the race received {p.received}, expected {pre_exp[i]}"
+        return None
+
+    seen = set()
+    runs = overlap = incomplete = 0
+    with det.patched():
+        for s, res, ctx in det.explore(factory, K=K, **kw):
+            if runs == 0:
+                res_b, _ = det.run_checked(factory, s, **kw)  # determinism of the base run
+                if res_b.fingerprint() != res.fingerprint():
+                    raise HarnessError("det_race: base run not deterministic")
+            runs += 1
+            overlap += res.overlapped()
+            if not res.complete and not res.deadlock:
+                incomplete += 1
+                continue
+            bad = judge(res, ctx)
+            if bad is not None:
+                res2, ctx2 = det.run_checked(factory, s, **kw)
+                bad2 = judge(res2, ctx2)
+                if bad2 is None or bad2[0] != bad[0]:
+                    raise HarnessError(f"det_race: verdict not reproducible for schedule {s}: {bad} vs {bad2}")
+                return FAIL(f"{kind}:race:{bad[0]}", f"{bad[1]}; schedule={s}; {res2.describe()}; case={case}", classes=["det"])
+            seen.add(allowed.index(ctx["rec"].received))
+    if incomplete:
+        return SKIP("budget")
+    cl = ["det", f"K{K}", f"positions-observed:{len(seen)}/{len(allowed)}"] + [f"runs>={b}" for b in (10, 100, 1000) if runs >= b]
+    return OK(overlap > 0 and len(seen) >= 2, cl)
